@@ -151,32 +151,26 @@ def scenario_wichura(c):
     with shims.patched((dr, 'np', shim)):
         out = dr.get_normal_wichura_draws(1, 1, uniform_numbers=BoolArray.wrap(arr))
     val = lift(np.asarray(out, dtype=object).reshape(-1)[0])
-    covered = False
+    # which published rational function does this path compute?
+    used = None
     for name, cond, ref_val in ppnd16_branches(u):
-        if str(c.check(cond, timeout_ms=5000)) == 'unsat':
-            continue  # this published region does not meet the path
-        covered = True
-        label = f'normal quantile: value computed on this path is the published rational function of the {name}'
-        same = False
         try:
             num, _ = Normaliser().residual(val, ref_val)
-            same = not num
         except Exception:  # noqa: BLE001
-            pass
-        if same:
-            obs.append((label, 'proved', None))
             continue
-        v = symx.prove(c, z3.Implies(cond, val == ref_val), label, timeout_ms=10000)
-        if v.status == 'unknown':
-            # the solver could not separate the two rational functions: propose a point of the region, the replay decides
-            c.solver.push()
-            c.solver.add(cond)
-            m = symx.witness(c)
-            c.solver.pop()
-            obs.append((label, 'cex' if m is not None else 'unknown', m))
-        else:
-            obs.append((label, v.status, v.model))
-    obs.append(('normal quantile: path lies in a published region', 'proved' if covered else 'unknown', None))
+        if not num:
+            used = (name, cond)
+            break
+    if used is None:
+        # none of the five published functions: a point of the path is handed to the replay
+        m = symx.witness(c)
+        obs.append(('normal quantile: the value computed on a path is one of the published rational functions',
+                    'cex' if m is not None else 'unknown', m))
+        return obs
+    name, cond = used
+    obs.append((f'normal quantile: the value computed on a path is one of the published rational functions', 'proved', None))
+    v = symx.prove(c, cond, f'normal quantile: the {name} function is used only in its published region', timeout_ms=10000)
+    obs.append((v.label, v.status, v.model))
     return obs
 
 
@@ -564,8 +558,12 @@ def concrete_run(case):
     kind = case['kind']
     bad = []
     if kind == 'wichura':
-        us = [case['values'].get('u')] if case['values'].get('u') is not None else []
-        us += [1e-9, 1e-6, 1e-3, 0.01, 0.05, 0.074, 0.076, 0.3, 0.45, 0.46, 0.5, 0.7, 0.924, 0.926, 0.99, 1 - 1e-6, 1 - 1e-12]
+        u0 = case['values'].get('u')
+        # the point of the counterexample, close neighbours, and points further out on the same side (an extrapolated
+        # rational function can be accurate to 1e-14 right next to the region it belongs to)
+        us = [u0, u0 * (1 + 1e-3), u0 * (1 - 1e-3), u0 / 10, u0 / 1e3, u0 / 1e6, 1 - (1 - u0) / 10, 1 - (1 - u0) / 1e3,
+              1 - (1 - u0) / 1e6] if u0 is not None else \
+            [1e-9, 1e-6, 1e-3, 0.01, 0.05, 0.074, 0.076, 0.3, 0.45, 0.46, 0.5, 0.7, 0.924, 0.926, 0.99, 1 - 1e-6, 1 - 1e-12]
         for u in us:
             if not 0 < u < 1:
                 continue
